@@ -85,7 +85,10 @@ func runC09(c *core.Ctx) {
 		}
 		media := gen.next(t, mtu)
 		var frags [][]byte
-		if c.Guard("codecs."+kindNames[kind]+"Payloader.Payload", func() { frags = pay.Payload(uint16(mtu), media) }) {
+		if fr := c09foreign(t, kind, mtu); fr != nil {
+			frags = fr // a foreign peer: forms this library's payloaders never emit (PACI, all descriptor flags, STAP-A of 1-5 units)
+			c.Probe("foreign-peer-frame")
+		} else if c.Guard("codecs."+kindNames[kind]+"Payloader.Payload", func() { frags = pay.Payload(uint16(mtu), media) }) {
 			return
 		}
 		c.Logf("sender: frame %d (%d bytes) -> %d payloads", f, len(media), len(frags))
@@ -255,4 +258,41 @@ func prepassC09(c *core.Ctx) int {
 		}
 	}
 	return cases
+}
+
+// c09foreign returns, for one frame in three of the kinds that have an independent writer,
+// payloads from that writer instead of the library's payloader.
+func c09foreign(t *core.Tape, kind, mtu int) [][]byte {
+	switch kind {
+	case kH265, kH265DONL, kVP8, kVP9, kVP9Flex, kH264, kH264AVC:
+	default:
+		t.Draw(1)
+		return nil
+	}
+	if !t.Chance(1, 3) {
+		return nil
+	}
+	switch kind {
+	case kH265, kH265DONL:
+		ps, _ := foreignH265(t, genH265Units(t, mtu), kind == kH265DONL)
+		return ps
+	case kH264, kH264AVC:
+		st := 0
+		au := genH264AU(t, mtu, false, &st)
+		return foreignH264(t, au.units)
+	case kVP8:
+		var out [][]byte
+		for i := 0; i < 1+t.Intn(4); i++ {
+			_, d := genVP8Desc(t)
+			out = append(out, append(d, t.Bytes(t.Intn(12))...))
+		}
+		return out
+	default:
+		var out [][]byte
+		for i := 0; i < 1+t.Intn(4); i++ {
+			_, d := genVP9Desc(t)
+			out = append(out, append(d, t.Bytes(t.Intn(12))...))
+		}
+		return out
+	}
 }
